@@ -605,8 +605,12 @@ bool GennaroJareckiKrawczykRabinDKG::Generate
 		complaints_counter.clear(), complaints_from.clear(); // reset for final complaint resolution
 		for (size_t j = 0; j < n; j++)
 			complaints_counter.push_back(0); // initialize counter
+		std::vector< std::vector<size_t> > complainers(n); // who complained against whom
 		for (std::vector<size_t>::iterator it = complaints.begin(); it != complaints.end(); ++it)
+		{
 			complaints_counter[*it]++; // count my own complaints
+			complainers[*it].push_back(i);
+		}
 		complaints.clear();
 		for (size_t j = 0; j < n; j++)
 		{
@@ -628,6 +632,7 @@ bool GennaroJareckiKrawczykRabinDKG::Generate
 					{
 						err << "P_" << i << ": receiving complaint against P_" << who << " from P_" << j << std::endl;
 						complaints_counter[who]++;
+						complainers[who].push_back(j);
 						dup.insert(std::pair<size_t, bool>(who, true)); // mark as counted for $P_j$
 						if (who == i)
 							complaints_from.push_back(j);
@@ -677,6 +682,7 @@ bool GennaroJareckiKrawczykRabinDKG::Generate
 			if (j != i)
 			{	
 				size_t cnt = 0;
+				std::vector<size_t> answered; // complaints answered by $P_j$
 				do
 				{
 					if (!rbc->DeliverFrom(lhs, j))
@@ -736,6 +742,7 @@ bool GennaroJareckiKrawczykRabinDKG::Generate
 					}
 					else
 					{
+						answered.push_back(who);
 						// don't be too curious
 						if (who == i)
 						{
@@ -749,6 +756,16 @@ bool GennaroJareckiKrawczykRabinDKG::Generate
 					cnt++;
 				}
 				while (cnt <= n);
+				// every complaint against $P_j$ must have been answered
+				for (size_t c = 0; c < complainers[j].size(); c++)
+				{
+					if (std::find(answered.begin(), answered.end(), complainers[j][c]) == answered.end())
+					{
+						err << "P_" << i << ": complaint not answered; complaint against P_" << j << std::endl;
+						complaints.push_back(j);
+						break;
+					}
+				}
 			}
 		}
 		// 2. Each party the builds the set of non-disqualified parties $QUAL$.
